@@ -99,7 +99,7 @@ template <> struct Val<int64_t>  { static int64_t make(long long v) { return ((i
 template <> struct Val<short>    { static short make(long long v) { return (short)-v; }                  static Json back(short x) { return Json(-(int)x); } };
 template <> struct Val<char>     { static char make(long long v) { return (char)v; }                       static Json back(char x) { return Json((int)x); } };
 // float / double: the model values 1 and 2 are the two zeros - values that operator== calls equal although they are
-// distinguishable (an overwrite of one by the other is a write like any other: seeded/C10-07)
+// distinguishable (an overwrite of one by the other is a write like any other: seeded/C10-08)
 template <> struct Val<float>
 {
   static float make(long long v) { return v == 1 ? 0.0f : v == 2 ? -0.0f : (float)v + 0.5f; }
